@@ -59,7 +59,7 @@ pub fn viol(out: &mut Vec<Violation>, prop: &'static str, monitor: &'static str,
 
 impl Mon {
     pub fn new(cfg: &Cfg) -> Mon {
-        Mon { allow_model_valid: true, token_world: cfg.token_world.is_some(), legacy_claims: !cfg.legacy_wait.is_empty(), ..Default::default() }
+        Mon { allow_model_valid: true, token_world: cfg.token_world.is_some(), legacy_claims: !cfg.legacy_wait.is_empty() || cfg.legacy_bulk > 0, ..Default::default() }
     }
 
     pub fn on_genesis(&mut self, cfg: &Cfg, w: &World, obs: &Obs, rejected: &[(String, String)], stats: &mut Stats, out: &mut Vec<Violation>) {
@@ -93,6 +93,7 @@ impl Mon {
             return;
         }
         // order matters: ledger updates happen inside the property monitors that own them
+        hub::c11_legacy_guard(self, ctx, stats, out);
         hub::c07_claims(self, ctx, stats, out);
         hub::c01_withdraw(self, ctx, stats, out);
         pricing::c02_books(self, ctx, stats, out);
@@ -102,6 +103,7 @@ impl Mon {
         pricing::c06_slashing(self, ctx, stats, out);
         hub::c08_lifecycle(self, ctx, stats, out);
         misc::c12_plans(self, ctx, stats, out);
+        misc::c12_probe(self, ctx, stats, out);
         misc::c13_remove_validator(self, ctx, stats, out);
         reward::c14_c15_pool(self, ctx, stats, out);
         reward::c16_mirror(self, ctx, stats, out);
